@@ -178,13 +178,9 @@ func explainFunctionCallWithAlias(sb *strings.Builder, n *ast.FunctionCall, alia
 	}
 	for _, arg := range argsToOutput {
 		// For view() table function, unwrap Subquery wrapper
-		// Also reset the subquery context since view() SELECT is not in a Subquery node
 		if strings.ToLower(n.Name) == "view" {
 			if sq, ok := arg.(*ast.Subquery); ok {
-				prevContext := inSubqueryContext
-				inSubqueryContext = false
 				Node(sb, sq.Query, depth+2)
-				inSubqueryContext = prevContext
 				continue
 			}
 		}
